@@ -2683,6 +2683,21 @@ class Engine:
             if m is not None:
                 callee = m
                 e.targets = [m]
+        # argument style: keyword arguments that name the next positional parameters of the resolved callee are the same call as
+        # the positional spelling - rules read `args[i]`, terms compare equal
+        if kwargs and not any(a_[0] == "starred" for a_ in args) and all(k_ != "**" for k_, _ in kwargs):
+            pn = [x.arg for x in callee.node.args.posonlyargs + callee.node.args.args]
+            if callee.kind in ("method", "classmethod", "property") and pn and f[0] in ("bound",) or (callee.kind in ("method", "classmethod") and pn and recv is not None):
+                pn = pn[1:]
+            npos = len(callee.node.args.posonlyargs)
+            kwd = dict(kwargs)
+            moved = list(args)
+            while len(moved) < len(pn) and len(moved) >= npos and pn[len(moved)] in kwd:
+                moved.append(kwd.pop(pn[len(moved)]))
+            if len(moved) != len(args):
+                args = tuple(moved)
+                kwargs = tuple((k_, v_) for k_, v_ in kwargs if k_ in kwd)
+                e.args, e.kwargs = args, kwargs
         if callee.is_async and not awaited:
             e.coro = True
             res = ("coro", ("bound", recv, callee.qual) if recv is not None else ("func", callee.qual), args, kwargs, site)
